@@ -329,7 +329,10 @@ func runIDCase(ic IDCase) (viol []string, note string) {
 	return viol, ""
 }
 
-func runIDTest(t *testing.T, prop, test string) {
+func runIDTest(t *testing.T, prop, test string, commands ...string) {
+	if len(commands) == 0 {
+		commands = []string{"new_task", "new_epic", "plan", "plan"}
+	}
 	if os.Getenv("VERIF_MINIMIZE_IN") != "" {
 		return
 	}
@@ -358,7 +361,7 @@ func runIDTest(t *testing.T, prop, test string) {
 		ic := IDCase{Property: prop, Engine: "HOOK", Test: test}
 		ic.Tasks = between(rt, 2, 7, "tasks")
 		ic.Epics = between(rt, 0, 2, "epics")
-		ic.Command = oneOf(rt, []string{"new_task", "new_epic", "plan", "plan"}, "command")
+		ic.Command = oneOf(rt, commands, "command")
 		ic.Compact = pct(rt, 15, "compact")
 		for n := between(rt, 1, 5, "cands"); n > 0; n-- {
 			ic.Candidates = append(ic.Candidates, oneOf(rt, []string{"pruned", "pruned", "live", "fresh"}, "role"))
@@ -398,3 +401,6 @@ func TestC09IDs(t *testing.T) { runIDTest(t, "C09", "TestC09IDs") }
 // C16: "new ids (fresh, six upper-case characters)" - the same forced-collision experiment,
 // judged as a statement about what --json reports.
 func TestC16IDs(t *testing.T) { runIDTest(t, "C16", "TestC16IDs") }
+
+// C11: "everything it reports (ids, order, edges) is what a subsequent read shows".
+func TestC11IDs(t *testing.T) { runIDTest(t, "C11", "TestC11IDs", "plan") }
